@@ -25,14 +25,44 @@ def swap(kind):
 CAPT = {}
 
 
-def hooks(upper=True):
+def swap_helpers(facts):
+    """Functions of the solver modules that exchange rows / elements with mem::swap (today `row_swap` for the matrix and `el_swap` for the right-hand side;
+    one merged helper or renamed ones are the same to the rules): [(name, roles per parameter)] with role in {"mat", "vec", "idx", None}."""
+    out = []
+    for r in facts.all_fns():
+        if not (r["fn"].startswith(LD) or r["fn"].startswith(LF)) or "sig" not in r:
+            continue
+        if not any(e.get("k") == "path" and (e.get("def") or "").endswith("mem::swap") for e in hir.walk(r["body"])):
+            continue
+        roles = []
+        for t in r["sig"]:
+            t_ = t.replace("&", "").replace("mut ", "").strip()
+            roles.append("mat" if "Dim<[usize; 2]>" in t_ else "vec" if "Dim<[usize; 1]>" in t_ else "idx" if t_ == "usize" else None)
+        if roles.count("idx") == 2 and ("mat" in roles or "vec" in roles):
+            out.append((r["fn"], roles))
+    return out
+
+
+def swap_hook(roles):
+    def h(ev, vals, e):
+        jk = [v for v, role in zip(vals, roles) if role == "idx"]
+        for v, role in zip(vals, roles):
+            if role in ("mat", "vec"):
+                swap("rowswap" if role == "mat" else "elswap")(ev, [v] + jk, e)
+        return Sym("unit")
+    return h
+
+
+def hooks(upper=True, facts=None):
     def cap_upper(ev, vals, e):
         CAPT["upper_args"] = vals
         return Sym("upper", *[v.key() if isinstance(v, Arr) else vkey(v) for v in vals])
-    h = {"linalg_dual::row_swap": swap("rowswap"), "linalg_dual::el_swap": swap("elswap"),
-         "linalg_dual::argabsmax": lambda ev, vals, e: Poly.atom(("argabsmax", vkey(vals[0]))),
+    h = {"linalg_dual::row_swap": swap("rowswap"), "linalg_dual::el_swap": swap("elswap")}
+    if facts is not None:
+        h = {name: swap_hook(roles) for name, roles in swap_helpers(facts)}
+    h.update({"linalg_dual::argabsmax": lambda ev, vals, e: Poly.atom(("argabsmax", vkey(vals[0]))),
          "dmul11_": lambda ev, vals, e: Poly.atom(("inner", tuple(vkey(v) for v in vals))),
-         "Zero::zero": lambda ev, vals, e: Poly.const(0)}
+         "Zero::zero": lambda ev, vals, e: Poly.const(0)})
     if upper:
         h["solve_upper21_"] = cap_upper
     return h
@@ -48,12 +78,12 @@ def run(ck, facts, tier):
     r2 = ck.rule("R13.2", "siblings agree: the generic (dsolve21_, dsolve_upper21_) and float-matrix (fdsolve21_, fdsolve_upper21_) implementations have the same loop nest "
                           "and, after normalisation (compound assignment, T::zero() = 0, (1/u)*v = v/u), the same ordered update statements on A, b and x", floor=3)
     r1 = ck.rule("R13.1", "swap pairing: in both eliminations row_swap(A, j, k) is immediately followed by el_swap(b, j, k) with the same (j, k), both under j != k, with "
-                          "k = argabsmax(A[j.., j]) + j (partial pivoting on the column below the diagonal); argabsmax compares absolute values; row_swap / el_swap exchange whole rows / elements", floor=7)
+                          "k = argabsmax(A[j.., j]) + j (partial pivoting on the column below the diagonal); argabsmax compares absolute values; row_swap / el_swap exchange whole rows / elements", floor=6)   # 7 today; 6 when one helper swaps both the row and the element
     for fn in (LD + "dsolve21_", LF + "fdsolve21_"):
         r = facts.fn(fn)
         A, B = mk()
         try:
-            ev = cel.Ev(facts, hooks=hooks())
+            ev = cel.Ev(facts, hooks=hooks(facts=facts))
             CAPT.clear()
             out = ev.apply_fn(fn, [A, B], 0)
             # the arrays the elimination worked on are those handed to the back substitution
@@ -104,8 +134,14 @@ def run(ck, facts, tier):
             later = [w for w in A.writes + B.writes if w.get("seq", 0) < rs[0]["seq"]]
             ck.check(r1, name + ":swap-first", not later, "an update of the system precedes the pivot swap within a pivot step", where, sample="swap is the first statement of a pivot step")
     # the swap helpers exchange whole rows / single elements: the slice they split is the full array (every dimension `..`), split along axis 0 at the lower index
-    for nm, ndim in (("row_swap", 2), ("el_swap", 1)):
-        rr = facts.fn(LD + nm)
+    found_helpers = swap_helpers(facts)
+    if not found_helpers:
+        ck.fail(r1, "row_swap:whole", "no swap helper found in the solver modules")
+    for hname, roles in found_helpers:
+        nm = hname.rsplit("::", 1)[-1]
+        arrays = [r_ for r_ in roles if r_ in ("mat", "vec")]
+        ndim = sum(2 if r_ == "mat" else 1 for r_ in arrays)
+        rr = facts.fn(hname)
         okh, whyh = False, "helper not found"
         if rr:
             es_ = list(hir.walk(rr["body"]))
@@ -115,7 +151,7 @@ def run(ck, facts, tier):
             convs = [e for e in es_ if e.get("k") == "call" and (e["f"].get("def") or "").endswith("convert::From::from")]
             splits = [e for e in es_ if e.get("k") == "mcall" and e["m"] == "split_at"]
             swaps = [e for e in es_ if e.get("k") == "path" and (e.get("def") or "").endswith("mem::swap")]
-            okh = len(fulls) == ndim and len(convs) == ndim and not other and len(splits) == 1 and len(swaps) == 1
+            okh = len(fulls) == ndim and len(convs) == ndim and not other and len(splits) == len(arrays) and len(swaps) == len(arrays)
             whyh = "%s does not split the FULL array (%d `..` dimensions of %d; other ranges: %d) at axis 0 and swap with mem::swap" % (nm, len(fulls), ndim, len(other))
         ck.check(r1, nm + ":whole", okh, whyh, "%s:%d" % (rr["file"], rr["line"]) if rr else None, sample="slice_mut(s![%s]).split_at(Axis(0), k); swap" % ", ".join([".."] * ndim))
     am = facts.fn(LD + "argabsmax")
@@ -137,7 +173,7 @@ def run(ck, facts, tier):
         U, B = mk()
         r = facts.fn(fn)
         try:
-            ev = cel.Ev(facts, hooks=hooks(upper=False))
+            ev = cel.Ev(facts, hooks=hooks(upper=False, facts=facts))
             out = ev.apply_fn(fn, [U, B], 0)
             ures[fn] = wl(out) if isinstance(out, Arr) else None
         except Unsupported as e:
